@@ -36,7 +36,7 @@ def Ty.hasSelf : Ty → Bool
   | .bareFn args ret => Ty.hasSelfL args || Ty.hasSelfO ret
   | .paren t => t.hasSelf
   | .never => false
-  | .dynT _ segs => Seg.hasSelfL segs
+  | .dynT _ segs _ => Seg.hasSelfL segs
   | .macro _ => false
 def Ty.hasSelfO : Option Ty → Bool
   | none => false
@@ -59,6 +59,12 @@ def GArg.hasSelfL : List GArg → Bool
   | a :: as => a.hasSelf || GArg.hasSelfL as
 end
 
+theorem parenIfPlus_hasSelf (t : Ty) : t.parenIfPlus.hasSelf = t.hasSelf := by
+  unfold Ty.parenIfPlus
+  split
+  · simp [Ty.hasSelf]
+  · rfl
+
 /-- `expand_self` leaves no type node `Self` behind (given the replacement itself has none) -/
 theorem expandSelf_no_self (to : Ty) (hto : to.hasSelf = false) :
     (∀ t : Ty, (Ty.expandSelf to t).hasSelf = false) := by
@@ -75,7 +81,7 @@ theorem expandSelf_no_self (to : Ty) (hto : to.hasSelf = false) :
     intro g segs ih
     unfold Ty.expandSelf
     by_cases h : (Ty.path g segs).isSelf = true
-    · simp [h, hto]
+    · simp [h, hto, parenIfPlus_hasSelf]
     · simp only [h, Bool.false_eq_true, if_false]
       unfold Ty.hasSelf
       simp only [ih, Bool.or_false]
